@@ -199,6 +199,36 @@ def c17_execute(trace, tier, res, gen=False):
             counters.merge(sim.counters)
         if gen:
             trace["episodes"] = episodes
+        # doc_flip faults that leave the document valid: the loader must
+        # return what the *damaged* file says
+        flips = trace.get("flips")
+        if flips is None:
+            flips = flip_cases(text, core.stream(seed, "flips"),
+                               12 if tier == "quick" else 40)
+            trace["flips"] = flips
+        for fc in flips:
+            try:
+                dd = yaml.safe_load(fc["text"])
+            except yaml.YAMLError:
+                continue
+            if broken_rule(dd) is not None:
+                continue
+            try:
+                cfg2 = reader.from_yaml_text(fc["text"], name="doc")
+            except Exception:
+                continue          # not readable by our reader: no verdict
+            path2 = configs.write_doc(fc["text"], "c17flip")
+            try:
+                scen2 = nasim.load_scenario(path2)
+            except Exception:
+                counters.hit("flip.refused_unclassified")
+                continue          # refused: no verdict (C18 owns rejection)
+            counters.hit("fault.doc_flip_still_valid")
+            try:
+                c17_fields(scen2, cfg2)
+            except Violation as v:
+                v.detail["flip"] = {k: fc[k] for k in ("at", "from", "to")}
+                raise
     except Violation as v:
         res["violation"] = v.to_json()
         if gen:
@@ -581,6 +611,7 @@ def c18_run_one(prop, tier, root, idx, extra):
         cut = fl.randrange(1, max(2, len(base_text) - 1))
         cases.append({"fault": "doc_torn", "text": base_text[:cut],
                       "cut": cut})
+    cases.extend(flip_cases(base_text, fl, 40 if tier == "quick" else 150))
     trace = {"seed": seed, "label": label, "base": base_text,
              "ops": cases}
     return c18_execute(trace, tier, {"idx": idx, "seed": seed})
@@ -623,6 +654,22 @@ def c18_execute(trace, tier, res):
                     counters.hit("torn.unclassified")
                     continue
                 counters.hit("fault.doc_torn." + cls)
+            elif fault == "doc_flip":
+                try:
+                    dd = yaml.safe_load(case["text"])
+                except yaml.YAMLError:
+                    counters.hit("flip.unparsable")
+                    continue
+                rule = broken_rule(dd)
+                if rule is None:
+                    # still valid as far as the narrow detector can tell:
+                    # C17 scores these (the loader must return what the
+                    # damaged file says); no verdict here
+                    counters.hit("flip.still_valid_or_unclassified")
+                    continue
+                case["rule"] = rule
+                counters.hit("fault.doc_flip")
+                counters.hit("fliprule." + rule)
             else:
                 counters.hit("fault.doc_rule_break")
                 counters.hit("rule." + fault.split(".")[0])
@@ -643,3 +690,197 @@ def c18_execute(trace, tier, res):
     res["case_digest"] = core.digest(trace["base"])
     res["steps"] = res["ops"]
     return res
+
+
+# ==========================================================================
+# narrow validator for damaged documents (doc_flip faults)
+# ==========================================================================
+def broken_rule(d):
+    """Name of a catalogue rule the parsed document certainly breaks, or
+    None.  Deliberately narrow: it only reports what the C18 statement
+    lists, and only when it is sure."""
+    def num(x):
+        return isinstance(x, (int, float)) and not isinstance(x, bool)
+    if not isinstance(d, dict):
+        return "not_a_mapping"
+    for k in REQUIRED:
+        if k not in d:
+            return "section_missing"
+    for k in d:
+        if k not in REQUIRED and k != "step_limit":
+            return "section_unknown"
+    types = {"subnets": list, "topology": list, "sensitive_hosts": dict,
+             "os": list, "services": list, "processes": list,
+             "exploits": dict, "privilege_escalation": dict,
+             "host_configurations": dict, "firewall": dict}
+    for k, t in types.items():
+        if not isinstance(d[k], t):
+            return "section_mistyped"
+    for k in ("service_scan_cost", "os_scan_cost", "subnet_scan_cost",
+              "process_scan_cost"):
+        if not num(d[k]):
+            return "section_mistyped"
+        if d[k] < 0:
+            return "scan_cost_negative"
+    subs = d["subnets"]
+    if not subs or any(type(s) is not int or s <= 0 for s in subs):
+        return "subnets"
+    n = len(subs)
+    T = d["topology"]
+    if len(T) != n + 1:
+        return "topology_shape"
+    for row in T:
+        if not isinstance(row, list) or len(row) != n + 1:
+            return "topology_shape"
+        for c in row:
+            if type(c) is not int or c not in (0, 1):
+                return "topology_entry"
+    for k in ("os", "services", "processes"):
+        lst = d[k]
+        try:
+            if not lst or len(set(lst)) != len(lst):
+                return k + "_list"
+        except TypeError:
+            return None
+        if any(not isinstance(x, str) for x in lst):
+            return None        # unusual names: no verdict
+    oss, srvs, procs = d["os"], d["services"], d["processes"]
+
+    def addr(k):
+        try:
+            return reader.parse_addr(k)
+        except Exception:
+            return None
+
+    def valid_addr(a):
+        return a is not None and 1 <= a[0] <= n and 0 <= a[1] < subs[a[0] - 1]
+    sh = d["sensitive_hosts"]
+    if not sh:
+        return "sensitive_empty"
+    seen = set()
+    for k, v in sh.items():
+        a = addr(k)
+        if a is None:
+            return None            # unparsable key: eval() decides, no verdict
+        if not valid_addr(a):
+            return "sensitive_address"
+        if a in seen:
+            return "sensitive_duplicate"
+        seen.add(a)
+        if not num(v) or v <= 0:
+            return "sensitive_value"
+    for sect, first, names in (("exploits", "service", srvs),
+                               ("privilege_escalation", "process", procs)):
+        for name, e in d[sect].items():
+            if not isinstance(e, dict):
+                return sect + "_not_mapping"
+            for f in (first, "os", "prob", "cost", "access"):
+                if f not in e:
+                    return sect + "_missing_field"
+            if not isinstance(e[first], str) or e[first] not in names:
+                return sect + "_unknown_name"
+            if not isinstance(e["os"], str):
+                return sect + "_os_type"
+            if e["os"].lower() != "none" and e["os"] not in oss:
+                return sect + "_unknown_os"
+            if not num(e["prob"]) or not num(e["cost"]):
+                return sect + "_field_type"
+            if e["prob"] < 0 or e["prob"] > 1:
+                return sect + "_prob"
+            if e["cost"] <= 0:
+                return sect + "_cost"
+            if e["access"] not in ("user", "root", 1, 2) or \
+                    isinstance(e["access"], bool):
+                return sect + "_access"
+    hc = d["host_configurations"]
+    want = {(s + 1, h) for s in range(n) for h in range(subs[s])}
+    got = set()
+    for k in hc:
+        a = addr(k)
+        if a is None or docgen.A(*a) != k:
+            return "host_configs_addresses"
+        got.add(a)
+    if got != want:
+        return "host_configs_addresses"
+    for k, h in hc.items():
+        if not isinstance(h, dict):
+            return "host_config_type"
+        for f in ("os", "services", "processes"):
+            if f not in h:
+                return "host_config_missing_key"
+        if not isinstance(h["services"], list) or \
+                not isinstance(h["processes"], list):
+            return None
+        try:
+            if any(s not in srvs for s in h["services"]) or \
+                    len(set(h["services"])) != len(h["services"]):
+                return "host_services"
+            if any(p not in procs for p in h["processes"]) or \
+                    len(set(h["processes"])) != len(h["processes"]):
+                return "host_processes"
+        except TypeError:
+            return None
+        if h["os"] not in oss:
+            return "host_os"
+        if "firewall" in h:
+            fw = h["firewall"]
+            if not isinstance(fw, dict):
+                return "host_firewall"
+            for fk, fv in fw.items():
+                fa = addr(fk)
+                if fa is None:
+                    return None
+                if not valid_addr(fa):
+                    return "host_firewall"
+                if not isinstance(fv, list) or \
+                        any(s not in srvs for s in fv) or \
+                        len(set(fv)) != len(fv):
+                    return "host_firewall"
+        if "value" in h:
+            if not num(h["value"]):
+                return "host_value"
+            a = addr(k)
+            for sk, sv in sh.items():
+                if addr(sk) == a and abs(h["value"] - sv) > 1e-6 * max(
+                        1, abs(sv)):
+                    return "host_value_contradiction"
+    fw = d["firewall"]
+    for i in range(n + 1):
+        for j in range(n + 1):
+            if i != j and T[i][j] == 1:
+                if docgen.A(i, j) not in fw or docgen.A(j, i) not in fw:
+                    return "firewall_rule_missing"
+    for k, v in fw.items():
+        if not isinstance(v, list):
+            return "firewall_rule_type"
+        try:
+            if any(s not in srvs for s in v) or len(set(v)) != len(v):
+                return "firewall_rule_services"
+        except TypeError:
+            return None
+    if "step_limit" in d:
+        sl = d["step_limit"]
+        if type(sl) is not int:
+            return "section_mistyped"
+        if sl <= 0:
+            return "step_limit"
+    return None
+
+
+def flip_cases(text, rng, n):
+    """Single-byte damage restricted to characters whose meaning we
+    understand: a digit replaced by another digit, a letter by another
+    letter."""
+    import string
+    cases = []
+    idx = [i for i, c in enumerate(text) if c.isdigit() or c.isalpha()]
+    for _ in range(n):
+        if not idx:
+            break
+        i = rng.choice(idx)
+        c = text[i]
+        pool = string.digits if c.isdigit() else string.ascii_lowercase
+        new = rng.choice([x for x in pool if x != c])
+        cases.append({"fault": "doc_flip", "at": i, "from": c, "to": new,
+                      "text": text[:i] + new + text[i + 1:]})
+    return cases
